@@ -259,6 +259,11 @@ type sysCase struct {
 	// was loaded before, a request is handled under the rules loaded last (seeded change C01-m5: a reload skipped
 	// when the rule list "looks unchanged"). The model sees Rules only.
 	Sibling    []hx.RuleSpec
+	// InFlight: the reload goes the other way round and lands WHILE the request is with its first destination: the
+	// router is built with Rules, and the sibling set is loaded (Router.SetRules) from inside the performer's first Do.
+	// "Each request is handled entirely under one version of the rules" (C19): the request started under Rules and
+	// must be finished under them (seeded change C19-m6: the flavours of the response looked up again after the round trip)
+	InFlight   bool
 	Rules      []hx.RuleSpec
 	Secrets    []string // nil = not configured
 	SecretsNil bool
@@ -286,7 +291,15 @@ func (c sysCase) inputTokens() []string {
 	flag, sch, host, uri, rq, dp := matchedTriple(c.Req.Raw())
 	in = append(in, hx.I(flag), hx.X(sch), hx.X(host), hx.X(uri), hx.X(rq), hx.X(dp))
 	in = append(in, scriptTokens(c.Script)...)
-	return in
+	// reload mode (trailing, optional for the handler): 0 none, 1 reloaded before the request, 2 reloaded in flight
+	mode := 0
+	if c.Sibling != nil {
+		mode = 1
+		if c.InFlight {
+			mode = 2
+		}
+	}
+	return append(in, hx.I(mode))
 }
 
 // runOnce configures the world with rs and performs the request.
@@ -296,17 +309,30 @@ func (c sysCase) runOnce(rs []hx.RuleSpec) (sysx.ClientView, []sysx.Contact, boo
 	if err != nil {
 		return sysx.ClientView{}, nil, false
 	}
+	script := scriptFunc(c.Script)
 	if c.Sibling != nil && len(rs) == len(c.Rules) {
-		if before, err2 := proxy.ParseRules(hx.RulesJSON(c.Sibling), sysx.Logger); err2 == nil {
-			w.Configure(before, c.conf())
-			w.Router.SetRules(rules)
+		if other, err2 := proxy.ParseRules(hx.RulesJSON(c.Sibling), sysx.Logger); err2 == nil {
+			if c.InFlight {
+				w.Configure(rules, c.conf())
+				router, once, inner := w.Router, false, script
+				script = func(req *http.Request) *sysx.OriginResp {
+					if !once {
+						once = true
+						router.SetRules(other)
+					}
+					return inner(req)
+				}
+			} else {
+				w.Configure(other, c.conf())
+				w.Router.SetRules(rules)
+			}
 		} else {
 			w.Configure(rules, c.conf())
 		}
 	} else {
 		w.Configure(rules, c.conf())
 	}
-	w.Perf.Reset(scriptFunc(c.Script))
+	w.Perf.Reset(script)
 	v := w.Do(c.Req.Raw(), c.Req.Method == "HEAD")
 	return v, w.Perf.Take(), true
 }
@@ -563,8 +589,9 @@ func sysuStream(g *hx.Gen, id int) hx.Case {
 			c.Req.Header = append(c.Req.Header, [2]string{"Richie-Request-ID", "client-id"})
 		}
 	}
-	if g.Chance(25) {
+	if g.Chance(30) {
 		c.Sibling = siblingOf(g, c.Rules)
+		c.InFlight = g.Chance(40)
 	}
 	c.Req.KeepAlive = g.Chance(35)
 	if c.Req.KeepAlive {
